@@ -69,8 +69,55 @@ def sig_text(s):
     return ', '.join(ps)
 
 
-def make_fn(s, log, counter=False):
-    """exec-s `def f(<signature>)`; the body appends to log, raises when told to, and returns all it received"""
+FALSY = [None, 0, False, '', ['list', []], ['dict', []]]
+
+
+def by_first(res):
+    """
+    return mode 'by_first': what f returns is decided by the first value it received (declared parameters first, then *va, then
+    **vk by sorted name): None -> None, 0 -> 0 / False (odd / even number of received values), 'a' -> '', a list -> [], a dict -> {},
+    anything else -> the full report. Evaluations are counted through `log`, never through the result.
+    """
+    vk = res['vk'] or {}
+    vals = [v for _, v in res['p']] + list(res['va'] or ()) + [vk[k] for k in sorted(vk)]
+    if not vals:
+        return res
+    sel = vals[0]
+    if sel is None:
+        return None
+    if isinstance(sel, bool):
+        return res
+    if isinstance(sel, int) and sel == 0:
+        return 0 if len(vals) % 2 else False
+    if isinstance(sel, str) and sel == 'a':
+        return ''
+    if isinstance(sel, list):
+        return []
+    if isinstance(sel, dict):
+        return {}
+    return res
+
+
+def apply_ret(ret, res):
+    """what a generated f returns in return mode `ret` given its full report `res` (used by the body AND by the reference model)"""
+    if ret is None or ret[0] == 'echo':
+        return res
+    if ret[0] == 'const':
+        return build(ret[1])
+    if ret[0] == 'by_first':
+        return by_first(res)
+    raise HarnessError('unknown return mode %r' % (ret,))
+
+
+def ret_label(v):
+    return 'None' if v is None else 'falsy:%r' % (v,) if (not isinstance(v, dict) or 'p' not in v) else 'report'
+
+
+def make_fn(s, log, counter=False, ret=None):
+    """
+    exec-s `def f(<signature>)`; the body appends to log (the side channel that counts evaluations), raises when told to, and returns
+    all it received - or, in the return modes ['const', v] / ['by_first'], None / 0 / False / '' / [] / {} (see apply_ret)
+    """
     n, d, va, vk = _sig(s)
     src = 'def f(%s):\n    return _body([%s], %s, %s)\n' % (
         sig_text(s), ', '.join("['%s', %s]" % (NAMES[i], NAMES[i]) for i in range(n)), 'va' if va else 'None', 'vk' if vk else 'None')
@@ -84,7 +131,7 @@ def make_fn(s, log, counter=False):
         res = {'p': p, 'va': va_, 'vk': vk_}
         if counter:
             res['n'] = len(log)
-        return res
+        return apply_ret(ret, res)
     ns = {'_body': _body}
     exec(src, ns)
     return ns['f']
@@ -372,6 +419,9 @@ def s_transparent(draw):
         stack.append(draw(st.sampled_from([nm for nm in ok if KLASS[nm] == c])))
     spec = dict(sig=s, args=args, kwargs=kwargs, stack=stack)
     if draw(st.booleans()):
+        # f returns a constant None / falsy value instead of its report (cache must not mistake that for "not cached yet")
+        spec['ret'] = ['const', draw(st.sampled_from([None, None] + FALSY))]
+    if draw(st.booleans()):
         s2 = draw(s_sig())
         a2, k2 = draw(s_call(s2))
         if all(admissible(nm, s2, a2, k2) for nm in stack):
@@ -387,21 +437,37 @@ def run_transparent(spec):
     decos = {nm: deco(nm) for nm in set(stack)}
     cls = ['depth=%i' % len(stack)] + sorted(set('has:' + KLASS[nm] for nm in stack))
     nt = False
+    ret = spec.get('ret')
+    cached = 'cache' in stack
+    if ret is not None:
+        cls.append('f_returns_None' if ret[1] is None else 'f_returns_falsy')
+        if cached:
+            cls.append('cached_result_is_None' if ret[1] is None else 'cached_result_is_falsy')
     for which, c in (('f', spec), ('g', spec.get('other'))):
         if c is None:
             continue
         s, args, kwargs = c['sig'], c['args'], c['kwargs']
         exp, callargs, nkw, ndef = expected(s, args, kwargs)
+        exp = apply_ret(ret, exp)
         log = []
-        f = make_fn(s, log)
+        f = make_fn(s, log, ret=ret)
         direct(f, s, args, kwargs, exp)
         what = stack_text(stack)
         w = wrap(stack, f, decos)
         # the signature, asked before and after a call (the wrapper caches it)
         check_argspec(what, w, f)
         a, k = bvals(args, kwargs)
+        n0 = len(log)
         r = call('%s for %s' % (what, call_text(s, args, kwargs)), w, *a, **k)
         check(same(r, exp), '%s for %s returned %s, f itself returns %s', what, call_text(s, args, kwargs), r, exp)
+        if cached:
+            # a cache layer anywhere in the stack: evaluated once now, not at all when the same call is made again
+            check(len(log) - n0 == 1, '%s for %s (fresh cache) evaluated f %s times', what, call_text(s, args, kwargs), len(log) - n0)
+            a, k = bvals(args, kwargs)
+            r = call('%s for %s (again)' % (what, call_text(s, args, kwargs)), w, *a, **k)
+            check(len(log) - n0 == 1, '%s for %s: the same call again evaluated f again (%s evaluations in all); f returns %s',
+                  what, call_text(s, args, kwargs), len(log) - n0, exp)
+            check(same(r, exp), '%s for %s: the same call again returned %s, the first result was %s', what, call_text(s, args, kwargs), r, exp)
         check_argspec(what, w, f)
         check_binding(what, w, f, s, args, kwargs, exp, callargs)
         nt = nt or len(stack) >= 2 or (nkw >= 1 and ndef >= 1)
@@ -774,6 +840,14 @@ def run_grid(spec):
         check(same(r, exp), '%s for %s returned %s, f itself returns %s', what, txt, r, exp)
         if nm == 'cache':
             check(len(log) - n0 == 1, '%s for %s (fresh cache) evaluated f %s times', what, txt, len(log) - n0)
+            for v in FALSY:
+                logc = []
+                wc = wrap(['cache'], make_fn(s, logc, ret=['const', v]))
+                for i in (1, 2):
+                    a, k = bvals(args, kwargs)
+                    r = call('%s (f returns %r) for %s, call %i' % (what, build(v), txt, i), wc, *a, **k)
+                    check(same(r, build(v)), '%s for %s, call %s returned %s, f returns %s', what, txt, i, r, build(v))
+                    check(len(logc) == 1, '%s for %s: f returns %s; after %s identical calls f was evaluated %s times', what, txt, build(v), i, len(logc))
         check_binding(what, w, f, s, args, kwargs, exp, callargs)
         # wrapping twice directly
         ww = call('%s(%s)' % (nm, what), deco(nm), w)
@@ -796,12 +870,13 @@ def run_grid(spec):
 
 # ----------------------------------------------------------------------------- sub-check: cache call histories
 
-POOL = [0, 1, 'a', None, ['list', [1, 2]], ['dict', [['k', 1]]]]
+POOL = [None, 0, 1, 'a', ['list', [1, 2]], ['dict', [['k', 1]]]]   # None first: hypothesis favours / shrinks towards small indices
 CACHED = [
     dict(sig=dict(n=2, d=1, va=False, vk=False), stack=['cache']),
-    dict(sig=dict(n=2, d=1, va=False, vk=False), stack=['cache']),            # same signature, separate wrapper: caches must not be shared
-    dict(sig=dict(n=1, d=0, va=True, vk=True), stack=['cache', 'cache']),       # wrapped twice = wrapped once
-    dict(sig=dict(n=3, d=3, va=False, vk=True), stack=['cache']),
+    # same signature, separate wrapper: caches must not be shared. Returns None / 0 / False / '' / [] / {} depending on its first argument
+    dict(sig=dict(n=2, d=1, va=False, vk=False), stack=['cache'], ret=['by_first']),
+    dict(sig=dict(n=1, d=0, va=True, vk=True), stack=['cache', 'cache'], ret=['by_first']),       # wrapped twice = wrapped once
+    dict(sig=dict(n=3, d=3, va=False, vk=True), stack=['cache'], ret=['by_first']),
 ]
 
 
@@ -827,7 +902,7 @@ class CacheModel(object):
 
     def __init__(self):
         self.logs = [[] for _ in CACHED]
-        self.fs = [make_fn(c['sig'], log, counter=True) for c, log in zip(CACHED, self.logs)]
+        self.fs = [make_fn(c['sig'], log, counter=True, ret=c.get('ret')) for c, log in zip(CACHED, self.logs)]
         self.ws = [wrap(c['stack'], f) for c, f in zip(CACHED, self.fs)]
         for c, w, f in zip(CACHED, self.ws, self.fs):
             lw, fw = layers(w)
@@ -842,6 +917,7 @@ class CacheModel(object):
         args = [POOL[i] for i in args_i]
         kwargs = [[k, POOL[i]] for k, i in kwargs_i]
         exp, callargs, nkw, ndef = expected(s, args, kwargs)
+        echo = exp
         key = (tuple(_tok(v) for v in args), tuple(sorted((k, _tok(v)) for k, v in kwargs)))
         log = self.logs[fn]
         n0 = len(log)
@@ -852,12 +928,16 @@ class CacheModel(object):
         known = self.first[fn]
         if key not in known:
             check(evals == 1, '%s (function %s): first call with these arguments as passed, f was evaluated %s times', what, fn, evals)
-            exp = dict(exp, n=len(log))
+            exp = apply_ret(CACHED[fn].get('ret'), dict(exp, n=len(log)))
             check(same(r, exp), '%s (function %s) returned %s, f returns %s', what, fn, r, exp)
             known[key] = exp
+            self.flags.add('first_result:' + ret_label(exp))
         else:
             check(evals == 0, '%s (function %s): these arguments were passed before, f was evaluated again (%s times)', what, fn, evals)
             check(same(r, known[key]), '%s (function %s): repeated call returned %s, the first result was %s', what, fn, r, known[key])
+            self.flags.add('cached_result_is_' + ret_label(known[key]))
+            if ret_label(known[key]).startswith('falsy'):
+                self.flags.add('cached_result_is_falsy')
             prev = [h for h in self.history if h[0] == fn]
             last = max(i for i, h in enumerate(prev) if h[3] == key)
             if any(h[3] != key for h in prev[last + 1:]):
@@ -870,7 +950,7 @@ class CacheModel(object):
                 self.flags.add('hit_with_keywords_reordered')
         if any(h[0] != fn and h[3] == key for h in self.history):
             self.flags.add('same_arguments_on_two_functions')
-        bound = _tok_bound(exp)
+        bound = _tok_bound(echo)
         if any(h[0] == fn and h[3] != key and h[4] == bound for h in self.history):
             self.flags.add('same_binding_other_split')
         self.history.append((fn, list(args_i), [list(kv) for kv in kwargs_i], key, bound))
@@ -944,9 +1024,10 @@ SUBS = [
         rule='random signature, random valid call with values from ints/strings/None/lists/dicts, stack of 1-3 of the 11 decorators (repeats allowed), '
              'non-raising f; result == own binding model == direct call, getargspec fields == inspect.getfullargspec(f) before and after the call, '
              'getcallargs / call_with_callargs through the stack; in half the cases the same decorator objects then wrap a second function with '
-             'another signature. non-trivial = stack of >= 2 decorators, or >= 1 keyword argument and >= 1 default relied on',
+             'another signature. In ~30% of the cases f returns a constant None / 0 / False / '' / [] / {} instead of its report; with a cache layer anywhere in the stack the same call is made twice: f evaluated exactly once (counted by side channel), same result. non-trivial = stack of >= 2 decorators, or >= 1 keyword argument and >= 1 default relied on',
         floor=0.5, class_floors={'depth=3': 0.15, 'kw+default': 0.07, 'second_function_same_decorators': 0.15, 'has:cache_func': 0.15, 'has:loops': 0.15,
-                                 'has:pd2np': 0.12, 'has:kwargs_support': 0.12, 'has:try_back': 0.15, 'has:try_value': 0.15}),
+                                 'has:pd2np': 0.12, 'has:kwargs_support': 0.12, 'has:try_back': 0.15, 'has:try_value': 0.15,
+                                 'f_returns_None': 0.08, 'f_returns_falsy': 0.08, 'cached_result_is_None': 0.03, 'cached_result_is_falsy': 0.03}),
     Sub('rewrap', lambda tier: s_rewrap(include_known_defect=REWRAP_DEEP), run_rewrap, quick=1500, thorough=20000,
         rule='stack of 1-3 decorators of distinct classes built on f, then wrapped again with a decorator of a class already in the stack (possibly another '
              'try_* variant); the result must have the layers and parameters of wrapping once, be == to it (dict equality of fresh wrappers), report f\'s '
@@ -970,14 +1051,15 @@ SUBS = [
                     'from a 6-element pool (0, 1, "a", None, [1,2], {"k":1}) in random positional/keyword spellings, re-issued earlier calls (keywords reordered, '
                     'fresh equal containers), the same binding through another split, the same call on the twin function; model: per function a dict keyed by '
                     '(positional values, sorted keyword items) as passed; every call must evaluate f once if the key is new and not at all otherwise and return '
-                    'the first result (which carries its evaluation number). non-trivial = a key repeated after an intervening call with another key on that function',
+                    'the first result. Three of the four functions return None / 0 / False / '' / [] / {} depending on their first argument (else the full report with its evaluation number); evaluations are counted through a list closed over by f, never through the result. non-trivial = a key repeated after an intervening call with another key on that function',
                floor=0.3, class_floors={'hit_after_other_key': 0.3, 'hit_with_keywords_reordered': 0.05, 'hit_with_container_argument': 0.1,
-                                        'same_arguments_on_two_functions': 0.1, 'same_binding_other_split': 0.1}),
+                                        'same_arguments_on_two_functions': 0.1, 'same_binding_other_split': 0.1,
+                                        'cached_result_is_None': 0.15, 'cached_result_is_falsy': 0.3, 'cached_result_is_report': 0.3}),
     EnumSub('binding_grid', enum_grid, run_grid, chunks=16,
             rule='EVERY signature (0-4 positional parameters x 0..n trailing defaults x +-*va x +-**vk = 60) x EVERY split of a valid argument set '
                  '(positional prefix 0..n, each remaining parameter by keyword or left to its default, 0-2 extra positionals for *va, 0-2 extra keywords '
                  'for **vk) x 2 value sets x keyword order forward/reversed; on each: getcallargs == inspect.getcallargs == own binding model, '
                  'call_with_callargs(getcallargs) == direct call, and for each of the 11 decorators alone: result, evaluated once, getargspec fields, '
-                 'getcallargs/call_with_callargs through the wrapper, W(W(f)) one layer with the same result. '
+                 'getcallargs/call_with_callargs through the wrapper, W(W(f)) one layer with the same result; cache(f) additionally with f returning each of None / 0 / False / \'\' / [] / {}: two identical calls, one evaluation. '
                  'non-trivial = >= 1 parameter passed by keyword and >= 1 default relied on'),
 ]
